@@ -46,17 +46,59 @@ def _terminates(stmts):
     return bool(stmts) and isinstance(stmts[-1], (ast.Return, ast.Raise))
 
 
+def _all_terminate(stmts):
+    """every path through stmts ends in return/raise"""
+    if not stmts:
+        return False
+    s = stmts[-1]
+    if isinstance(s, (ast.Return, ast.Raise)):
+        return True
+    if isinstance(s, ast.If):
+        return bool(s.orelse) and _all_terminate(s.body) and _all_terminate(s.orelse)
+    if isinstance(s, ast.Try) and not s.finalbody:
+        tail = s.orelse if s.orelse else s.body
+        return _all_terminate(tail) and all(_all_terminate(h.body) for h in s.handlers)
+    if isinstance(s, ast.With):
+        return _all_terminate(s.body)
+    return False
+
+
+def _has_return(stmts):
+    return any(isinstance(n, ast.Return) for s in stmts for n in ast.walk(s))
+
+
 def _else_after_return(stmts):
+    """move the statements that follow a terminating branch into the other branch:
+       if c: ...return     rest   ->  if c: ...return  else: rest
+       try: A except: ...return   rest  ->  try: A except: ...return  else: rest     (all handlers terminate, no finally)
+    Only done where a return is involved (raise-only guards stay as they are)."""
     out = []
     for i, s in enumerate(stmts):
-        if isinstance(s, ast.If) and not s.orelse and _terminates(s.body) and i + 1 < len(stmts):
-            rest = _else_after_return(stmts[i + 1:])
-            new = ast.If(test=s.test, body=_else_after_return(s.body), orelse=rest)
-            out.append(ast.copy_location(new, s))
-            return out
+        rest = stmts[i + 1:]
         if isinstance(s, ast.If):
             s.body = _else_after_return(s.body)
             s.orelse = _else_after_return(s.orelse)
+            if rest and _has_return(s.body + s.orelse):
+                if _all_terminate(s.body) and not _all_terminate(s.orelse):
+                    s.orelse = _else_after_return(s.orelse + rest)
+                    out.append(s)
+                    return out
+                if s.orelse and _all_terminate(s.orelse) and not _all_terminate(s.body):
+                    s.body = _else_after_return(s.body + rest)
+                    out.append(s)
+                    return out
+        elif isinstance(s, ast.Try) and not s.finalbody:
+            s.body = _else_after_return(s.body)
+            s.orelse = _else_after_return(s.orelse)
+            for h in s.handlers:
+                h.body = _else_after_return(h.body)
+            if rest and s.handlers and all(_all_terminate(h.body) for h in s.handlers) and any(_has_return(h.body) for h in s.handlers) \
+                    and not _has_return(s.body) and not _all_terminate(s.orelse or [ast.Pass()]):
+                s.orelse = _else_after_return(s.orelse + rest)
+                out.append(s)
+                return out
+        elif isinstance(s, ast.With):
+            s.body = _else_after_return(s.body)
         out.append(s)
     return out
 
@@ -69,13 +111,20 @@ def _tail_only(stmts):
             if not last:
                 return False
             continue
-        if isinstance(s, ast.If):
-            if last:
-                if not (_tail_only(s.body) and _tail_only(s.orelse)):
-                    return False
-                continue
-        if isinstance(s, ast.Try) and last and not s.finalbody and not s.orelse:
-            if not (_tail_only(s.body) and all(_tail_only(h.body) for h in s.handlers)):
+        if isinstance(s, ast.If) and last:
+            if not (_tail_only(s.body) and _tail_only(s.orelse)):
+                return False
+            continue
+        if isinstance(s, ast.Try) and last and not s.finalbody:
+            # with an else side the body must not return (its returns would skip the else side - fine - but the converted
+            # assignment would fall into it)
+            if s.orelse and _has_return(s.body):
+                return False
+            if not (_tail_only(s.body) and _tail_only(s.orelse) and all(_tail_only(h.body) for h in s.handlers)):
+                return False
+            continue
+        if isinstance(s, ast.With) and last:
+            if not _tail_only(s.body):
                 return False
             continue
         if any(isinstance(n, ast.Return) for n in ast.walk(s)):
@@ -84,16 +133,7 @@ def _tail_only(stmts):
 
 
 def _may_fall_off(stmts):
-    if not stmts:
-        return True
-    s = stmts[-1]
-    if isinstance(s, (ast.Return, ast.Raise)):
-        return False
-    if isinstance(s, ast.If):
-        return _may_fall_off(s.body) or _may_fall_off(s.orelse)
-    if isinstance(s, ast.Try) and not s.finalbody and not s.orelse:
-        return _may_fall_off(s.body) or any(_may_fall_off(h.body) for h in s.handlers)
-    return True
+    return not _all_terminate(stmts)
 
 
 def _params(fn, static):
@@ -116,7 +156,7 @@ def _is_static(fn):
 def _expandable(callee):
     if callee.decorator_list and not (_is_static(callee) and len(callee.decorator_list) == 1):
         return False
-    if callee.args.vararg or callee.args.kwarg:
+    if callee.args.kwarg:
         return False
     for n in ast.walk(callee):
         if n is callee:
@@ -204,19 +244,22 @@ class _Flattener:
 
     def expand(self, call, callee, target, caller_names, stack, depth):
         """-> list of statements replacing the call, or None.  target: None (value discarded), 'return', or an assignment target node"""
-        body = _else_after_return(clone(callee.body))
+        body = clone(callee.body)
         if body and isinstance(body[0], ast.Expr) and isinstance(body[0].value, ast.Constant) and isinstance(body[0].value.value, str):
             body = body[1:]      # docstring
+        body = _else_after_return(body)
         if not _tail_only(body):
             return None
-        has_value_return = any(isinstance(n, ast.Return) and n.value is not None and not (isinstance(n.value, ast.Constant) and n.value.value is None)
-                               for s in body for n in ast.walk(s))
+        rets = [n for st_ in body for n in ast.walk(st_) if isinstance(n, ast.Return)]
+        has_value_return = any(n.value is not None and not (isinstance(n.value, ast.Constant) and n.value.value is None) for n in rets)
         if target is not None and target != 'return' and has_value_return and _may_fall_off(body):
             return None
         names, defaults = _params(callee, self.static(callee))
-        if len(call.args) > len(names):
+        vararg = callee.args.vararg.arg if callee.args.vararg else None
+        if len(call.args) > len(names) and not vararg:
             return None
         argmap = dict(zip(names, call.args))
+        extra = list(call.args[len(names):])
         for k in call.keywords:
             if k.arg not in names or k.arg in argmap:
                 return None
@@ -227,42 +270,93 @@ class _Flattener:
                     return None
                 argmap[p] = defaults[p]
         stored = _stored_names(body)
-        locals_ = stored - set(names)
-        arg_names = {n.id for a in argmap.values() for n in ast.walk(a) if isinstance(n, ast.Name)}
+        locals_ = stored - set(names) - ({vararg} if vararg else set())
+        arg_names = {n.id for a_ in list(argmap.values()) + extra for n in ast.walk(a_) if isinstance(n, ast.Name)}
+        used = {}
+        for st_ in body:
+            for n in ast.walk(st_):
+                if isinstance(n, ast.Name):
+                    used[n.id] = used.get(n.id, 0) + 1
         rename, exprs, pre = {}, {}, []
-        # unify the returned local with the assignment target
-        unified = None
-        if isinstance(target, ast.Name) and target.id not in arg_names:
-            rets = [n for s in body for n in ast.walk(s) if isinstance(n, ast.Return)]
-            rn = {n.value.id for n in rets if isinstance(n.value, ast.Name)}
-            if rets and all(isinstance(n.value, ast.Name) for n in rets) and len(rn) == 1:
-                r = next(iter(rn))
-                used = {n.id for s in body for n in ast.walk(s) if isinstance(n, ast.Name)}
-                if r in locals_ and (target.id == r or target.id not in used):
-                    unified = r
-                    rename[r] = target.id
+        # --- unify returned variables with the assignment target(s): `x = self.m()` / `a, b = self.m()` where every return
+        #     names the same callee variable at that position
+        tpos = None
+        if isinstance(target, ast.Name):
+            tpos = [target]
+        elif isinstance(target, ast.Tuple) and all(isinstance(e, ast.Name) for e in target.elts):
+            tpos = list(target.elts)
+        unified = {}
+        if tpos and rets:
+            def at(r, i):
+                v = r.value
+                if len(tpos) == 1 and isinstance(target, ast.Name):
+                    return v
+                return v.elts[i] if isinstance(v, ast.Tuple) and len(v.elts) == len(tpos) else None
+            for i, t in enumerate(tpos):
+                vs = [at(r, i) for r in rets]
+                if not all(isinstance(v, ast.Name) for v in vs) or len({v.id for v in vs}) != 1:
+                    continue
+                r = vs[0].id
+                if r in unified or t.id in unified.values():
+                    continue
+                if r in locals_:
+                    # t must not denote anything else inside the callee
+                    if (t.id == r or t.id not in used) and t.id not in arg_names:
+                        unified[r] = t.id
+                elif r in names and isinstance(argmap[r], ast.Name) and argmap[r].id == t.id:
+                    # a parameter that is passed the target's current value, possibly rebound, and handed back
+                    others = {n.id for p_, a_ in argmap.items() if p_ != r for n in ast.walk(a_) if isinstance(n, ast.Name)}
+                    if t.id not in others and (t.id == r or t.id not in used):
+                        unified[r] = t.id
+        for r, t in unified.items():
+            rename[r] = t
         for l in sorted(locals_):
-            if l == unified:
+            if l in unified:
                 continue
-            if l in caller_names or l in arg_names:
+            if l in caller_names or l in arg_names or l in unified.values():
                 rename[l] = '%s__%s' % (l, callee.name.strip('_'))
         for p in names:
-            a = argmap[p]
-            if p not in stored and _pure_arg(a) and not (isinstance(a, ast.Name) and a.id in rename.values() and a.id != rename.get(unified)):
-                if isinstance(a, ast.Name):
-                    rename[p] = a.id
+            if p in unified:
+                continue
+            a_ = argmap[p]
+            if p not in stored and _pure_arg(a_):
+                if isinstance(a_, ast.Name):
+                    rename[p] = a_.id
                 else:
-                    exprs[p] = a
+                    exprs[p] = a_
             else:
-                nm = p if (p not in caller_names and p not in arg_names) else '%s__%s' % (p, callee.name.strip('_'))
+                nm = p if (p not in caller_names and p not in arg_names and p not in unified.values()) else '%s__%s' % (p, callee.name.strip('_'))
                 rename[p] = nm
-                pre.append(ast.copy_location(ast.Assign(targets=[ast.Name(id=nm, ctx=ast.Store())], value=clone(a)), call))
+                pre.append(ast.copy_location(ast.Assign(targets=[ast.Name(id=nm, ctx=ast.Store())], value=clone(a_)), call))
+        if vararg:
+            if vararg in stored:
+                return None
+            exprs[vararg] = ast.copy_location(ast.Tuple(elts=[clone(e) for e in extra], ctx=ast.Load()), call)
         sub = _Subst(rename, exprs)
-        body = [sub.visit(s) for s in body]
+        body = [sub.visit(st_) for st_ in body]
         body = self._returns(body, target, call)
         out = pre + body
         self.expanded.append(callee.name)
         return self.block(out, caller_names | set(rename.values()), stack + (callee.name,), depth + 1)
+
+    @staticmethod
+    def _assign_back(target, value, at):
+        """statements for `target = value`; a tuple of names assigned a tuple of equal length becomes one assignment per position
+        (identity positions dropped) when no position reads a name another position writes"""
+        if isinstance(value, ast.Name) and isinstance(target, ast.Name) and value.id == target.id:
+            return []
+        if isinstance(target, ast.Tuple) and isinstance(value, ast.Tuple) and len(target.elts) == len(value.elts) \
+                and all(isinstance(t, ast.Name) for t in target.elts):
+            pairs = [(t, v) for t, v in zip(target.elts, value.elts) if not (isinstance(v, ast.Name) and v.id == t.id)]
+            written = {t.id for t, _ in pairs}
+            ok = True
+            for t, v in pairs:
+                reads = {n.id for n in ast.walk(v) if isinstance(n, ast.Name)}
+                if reads & (written - {t.id}):
+                    ok = False
+            if ok:
+                return [ast.copy_location(ast.Assign(targets=[clone(t)], value=v), at) for t, v in pairs]
+        return [ast.copy_location(ast.Assign(targets=[clone(target)], value=value), at)]
 
     def _returns(self, stmts, target, call):
         out = []
@@ -275,22 +369,46 @@ class _Flattener:
                         out.append(ast.copy_location(ast.Expr(value=s.value), s))
                 else:
                     v = s.value if s.value is not None else ast.copy_location(ast.Constant(value=None), s)
-                    if isinstance(v, ast.Name) and isinstance(target, ast.Name) and v.id == target.id:
-                        continue       # x = x after unifying the returned local with the target
-                    out.append(ast.copy_location(ast.Assign(targets=[clone(target)], value=v), s))
+                    out.extend(self._assign_back(target, v, s))
                 continue
             if isinstance(s, ast.If):
                 s.body = self._returns(s.body, target, call) or [ast.copy_location(ast.Pass(), s)]
                 s.orelse = self._returns(s.orelse, target, call)
             elif isinstance(s, ast.Try):
                 s.body = self._returns(s.body, target, call) or [ast.copy_location(ast.Pass(), s)]
+                s.orelse = self._returns(s.orelse, target, call)
                 for h in s.handlers:
                     h.body = self._returns(h.body, target, call) or [ast.copy_location(ast.Pass(), h)]
+            elif isinstance(s, ast.With):
+                s.body = self._returns(s.body, target, call) or [ast.copy_location(ast.Pass(), s)]
             out.append(s)
+        return out
+
+    @staticmethod
+    def _merge_unpack(stmts):
+        """X = self.m(...)  followed directly by  a, b = X   (X not used anywhere else in this block)  ->  a, b = self.m(...)"""
+        out = []
+        i = 0
+        while i < len(stmts):
+            s = stmts[i]
+            nx = stmts[i + 1] if i + 1 < len(stmts) else None
+            if (isinstance(s, ast.Assign) and len(s.targets) == 1 and isinstance(s.targets[0], ast.Name) and isinstance(s.value, ast.Call)
+                    and isinstance(nx, ast.Assign) and len(nx.targets) == 1 and isinstance(nx.targets[0], ast.Tuple)
+                    and isinstance(nx.value, ast.Name) and nx.value.id == s.targets[0].id):
+                x = s.targets[0].id
+                others = sum(1 for t in stmts[i + 2:] for n in ast.walk(t) if isinstance(n, ast.Name) and n.id == x)
+                if not others:
+                    out.append(ast.copy_location(ast.Assign(targets=[nx.targets[0]], value=s.value), s))
+                    i += 2
+                    continue
+            out.append(s)
+            i += 1
         return out
 
     def block(self, stmts, caller_names, stack, depth):
         out = []
+        if any(isinstance(s, ast.Assign) and isinstance(s.value, ast.Call) and self.callee_of(s.value, stack) is not None for s in stmts):
+            stmts = self._merge_unpack(stmts)
         for s in stmts:
             rep = None
             if depth < MAX_DEPTH:
